@@ -1,9 +1,77 @@
-//! C09: not built yet.
-use crate::out::Out;
-use serde_json::Value;
+//! C09: `Project::normalize_basic` on raw programs "as the P-Code extractor may emit them".
+//! One event per program: the raw program, the normalised program, whether normalisation or the
+//! subsequent `get_program_cfg` panicked, and the graph that was built.  spec/trace/T_C09.tla checks
+//! the invariants of spec/Normalize.tla and (reusing C08) the graph against spec/Cfg.tla.
+use crate::cfgenc;
+use crate::irenc;
+use crate::irgen::{self, Knobs, RawKnobs, RawStats};
+use crate::out::{catch, Out};
+use crate::rng::Rng;
+use cwe_checker_lib::analysis::graph::get_program_cfg;
+use cwe_checker_lib::intermediate_representation::*;
+use serde_json::{json, Value};
 
-pub fn gen(_out: &mut Out, _sub: &str) {}
+pub fn exec(raw: &Term<Program>, origin: &str) -> Value {
+    let mut project = irgen::project_of(raw.clone());
+    let norm_res = catch(std::panic::AssertUnwindSafe(|| {
+        let logs = project.normalize_basic();
+        logs.len()
+    }));
+    let empty = json!({"subs": [], "externs": [], "entry_points": []});
+    let (norm, logs, norm_panic) = match &norm_res {
+        Ok(n) => (irenc::program(&project.program.term), *n, String::new()),
+        Err(msg) => (empty, 0, msg.clone()),
+    };
+    let (nodes, edges, entries, cfg_panic) = if norm_res.is_ok() {
+        let p2 = project.program.clone();
+        match catch(move || {
+            let g = get_program_cfg(&p2);
+            cfgenc::graph(&g)
+        }) {
+            Ok((n, e, en)) => (n, e, en, String::new()),
+            Err(msg) => (json!([]), json!([]), json!([]), msg),
+        }
+    } else {
+        (json!([]), json!([]), json!([]), String::new())
+    };
+    json!({"ev": "norm", "origin": origin, "raw": irenc::program(&raw.term), "norm": norm, "logs": logs,
+           "norm_panic": norm_panic, "cfg_panic": cfg_panic, "nodes": nodes, "edges": edges, "entries": entries,
+           "serde": irgen::program_to_string(raw)})
+}
 
-pub fn replay(_run: &[Value], _sub: &str) -> Vec<Value> {
-    Vec::new()
+pub fn replay(run: &[Value], _sub: &str) -> Vec<Value> {
+    run.iter()
+        .map(|e| exec(&irgen::program_from_string(e["serde"].as_str().unwrap()), e["origin"].as_str().unwrap_or("replay")))
+        .collect()
+}
+
+pub fn gen(out: &mut Out, _sub: &str) {
+    let mut rng = Rng::new(out.seed ^ 0xC09);
+    let n = out.size(900, 24000);
+    let mut kinds = [0u64; 3];
+    for i in 0..n {
+        let mut r = rng.fork();
+        let mut k = Knobs::default();
+        let mut rk = RawKnobs::default();
+        match i % 5 {
+            0 => { k.max_subs = 2; k.max_blocks = 3; }
+            1 => { k.max_subs = 3; k.max_blocks = 4; rk.shared_listed = 2; rk.shared_reached = 3; k.pct_forward = 80; }
+            2 => { k.max_subs = 4; k.max_blocks = 5; rk.dup_blocks = 2; rk.dup_defs = 2; rk.dup_jmps = 2; k.max_defs = 3; }
+            3 => { k.max_subs = 3; k.max_blocks = 4; rk.dangling_jumps = 3; rk.dangling_calls = 2; rk.dangling_rets = 2; rk.dangling_hints = 2;
+                   k.w_call_extern = 16; k.pct_last_returns = 30; }
+            _ => { k.max_subs = 5; k.max_blocks = 6; k.pct_forward = 70; }
+        }
+        let (raw, st): (Term<Program>, RawStats) = irgen::gen_raw_program_stats(&mut r, &k, &rk);
+        let ev = exec(&raw, "raw");
+        let present = [st.dangling > 0, st.shared > 0, st.dups > 0];
+        for (c, p) in kinds.iter_mut().zip(present) {
+            *c += p as u64;
+        }
+        // feature tag (counted only): at least two kinds of irregularity were injected
+        let nt = present.iter().filter(|x| **x).count() >= 2;
+        out.emit(vec![ev], nt);
+    }
+    out.extra.insert("programs_with_dangling_targets".into(), json!(kinds[0]));
+    out.extra.insert("programs_with_shared_blocks".into(), json!(kinds[1]));
+    out.extra.insert("programs_with_duplicate_tids".into(), json!(kinds[2]));
 }
